@@ -46,6 +46,8 @@ Op(o) == [op |-> o, k |-> 0]
 Rd(k) == [op |-> "RD", k |-> k]
 Rl(k) == [op |-> "RL", k |-> k]
 Ja(k) == [op |-> "JA", k |-> k]
+Rdo(k) == [op |-> "RDO", k |-> k]
+Swd(k) == [op |-> "SWD", k |-> k]
 
 NoCut == [frame |-> 0, part |-> "start", kind |-> "eof", with |-> FALSE, resume |-> FALSE]
 
@@ -144,8 +146,10 @@ Step ==
        [] o.op = "SRD" -> s' = s /\ hist' = hist
        [] o.op = "WCL" -> s' = WCLNext(s) /\ hist' = hist
        [] o.op = "WCP" -> s' = s /\ hist' = hist
+       [] o.op = "RDO" -> s' = s /\ hist' = hist
+       [] o.op = "SWD" -> s' = s /\ hist' = hist
        [] o.op = "JA" ->
-            LET j == JALoop(s, << >>, << >>, << >>, 0, o.k) IN
+            LET j == JALoop(s, << >>, << >>, << >>, 0, o.k, FALSE) IN
             /\ s' = JANext(j, CanonErr(j.w))
             /\ hist' = hist \o [i \in 1..Len(j.starts) |-> [op |-> "JA", res |-> "eom", start |-> j.starts[i], n |-> j.lens[i]]]
                             \o << [op |-> "NR", res |-> IF j.w.res \in {"eom", "data"} THEN "starve" ELSE j.w.res, start |-> 0, n |-> 0] >>
@@ -242,8 +246,8 @@ InvOverLimit ==
 
 (* C03: a program of ReadMessage calls on a fault-free conformant stream   *)
 (* yields exactly the messages of the stream.                              *)
-AllRM == \A i \in 1..Len(prog) : prog[i].op \in {"RM", "JA", "RJ", "WCL", "WCP"}
-NReads == Cardinality({i \in 1..Len(prog) : prog[i].op \notin {"WCL", "WCP"}})
+AllRM == \A i \in 1..Len(prog) : prog[i].op \in {"RM", "JA", "RJ", "WCL", "WCP", "SWD"}
+NReads == Cardinality({i \in 1..Len(prog) : prog[i].op \notin {"WCL", "WCP", "SWD"}})
 Conformant == Bad = 0 /\ cut.frame = 0 /\ \A i \in 1..Len(fr) : fr[i].lk = "n" /\ fr[i].arr = "full"
 InvDecode ==
   (pc > Len(prog) /\ AllRM /\ Conformant /\ (Lim = 0 \/ AllWithin) /\ cfg.hmode # "err") =>
